@@ -167,11 +167,10 @@ pub fn run(ctx: &Ctx) {
             let pid = unsafe { libc::fork() };
             if pid == 0 {
                 let ok = &pre[0][..] == &body(0xf0f0 + ctx.batch, 4097)[..] && pre[1].len() == 12289 && pre[1].iter().all(|b| *b == 0x3c);
-                if !ok {
-                    unsafe { libc::_exit(41) };
-                }
+                // (the verdict on the inherited regions is reported at the end: the parent is waiting in
+                // accept() and must get its connection first)
                 let rc = role_reader(&[name]);
-                unsafe { libc::_exit(rc) };
+                unsafe { libc::_exit(if ok { rc } else { 41 }) };
             }
             let (_b, (tx, rx)) = server.accept().expect("accept forked reader");
             // a placeholder Child is not available for a raw fork: keep the pid
